@@ -166,6 +166,7 @@ type HistProfile struct {
 	ScriptsPct    int
 	MetaHeavy     bool
 	AdversarialKV bool
+	PostingsHeavy bool // C25: long postings lists over few accounts, amounts close to the balances
 }
 
 var allOn = Feat{true, true, true, true, true}
@@ -210,7 +211,23 @@ func genHistory(r *Rng, p HistProfile, feat Feat, exec func(Op) OpResult) []Op {
 				o.Post = append(o.Post, Posting{"world", Pick(r, genAccounts[1:]), Pick(r, genAssets[:2]), big.NewInt(int64(50 + r.Intn(200)))})
 			}
 			np := 1 + r.Intn(3)
+			if p.PostingsHeavy && r.Chance(60) {
+				np = 1 + r.Intn(20)
+			}
 			for j := 0; j < np; j++ {
+				if p.PostingsHeavy && np > 3 {
+					accs := genAccounts[:4]
+					src, dst := Pick(r, accs), Pick(r, accs)
+					if r.Chance(10) {
+						dst = src
+					}
+					amt := big.NewInt(int64(r.Intn(40)))
+					if r.Chance(5) {
+						amt = r.BigAmount()
+					}
+					o.Post = append(o.Post, Posting{src, dst, Pick(r, genAssets[:2]), amt})
+					continue
+				}
 				src := Pick(r, genAccounts)
 				if r.Chance(45) {
 					src = "world"
